@@ -2,6 +2,8 @@
 
 package engine
 
+import "strings"
+
 // C03 — cut removes exactly the clause-level choice points; call/N makes it local.
 // C04 — throw/1 unwinds to the innermost still-executing catch/3, undoing bindings.
 
@@ -190,4 +192,49 @@ var c04Cases = []vCase{
 
 func VH_C04(vm *VM, inst int) {
 	vRunCase(vm, c04Cases[inst], "", false)
+}
+
+// ---- C04 generated family: two nested catch/3 with every combination of goal shape, ball, catcher and recovery ----
+
+// VH_C04_gen: inst%5 = shape of the outer goal; inst/5 = 0 small menus (quick), 1 full menus.
+func VH_C04_gen(vm *VM, inst int) {
+	full := inst/5 == 1
+	balls := []string{"k0", "k1", "f(X)"}
+	catchers := []string{"k0", "k1", "_", "f(Z)"}
+	recov := []string{"true", "emit(rec)", "throw(k2)", "fail"}
+	inner := []string{"throw(BALL2)", "true", "q(Y)", "(q(Y), throw(BALL2))"}
+	if !full {
+		balls = balls[:2]
+		catchers = []string{"k0", "_", "f(Z)"}
+		recov = recov[:3]
+		inner = []string{"throw(BALL2)", "q(Y)"}
+	}
+	pick := func(name string, menu []string) string { return menu[choice(name, len(menu))] }
+	b1, b2 := pick("ball", balls), pick("ball2", balls)
+	c1, c2 := pick("catcher", catchers), pick("catcher2", catchers)
+	r1, r2 := pick("recovery", recov), pick("recovery2", recov)
+	if r2 == "emit(rec)" {
+		r2 = "emit(rec2)"
+	}
+	g2 := pick("inner", inner)
+	in := "catch(" + g2 + ", " + c2 + ", " + r2 + ")"
+	var g1 string
+	switch inst % 5 {
+	case 0:
+		g1 = "throw(BALL)"
+	case 1:
+		g1 = "(q(X), emit(X), throw(BALL))"
+	case 2:
+		g1 = in
+	case 3:
+		g1 = "(" + in + ", emit(after_inner), throw(BALL))"
+	case 4:
+		g1 = "(q(X), " + in + ", emit(X))"
+	}
+	query := "catch(" + g1 + ", " + c1 + ", " + r1 + "), emit(done)."
+	query = strings.ReplaceAll(query, "BALL2", b2)
+	query = strings.ReplaceAll(query, "BALL", b1)
+	c := vCase{name: "c04-gen", prog: "q(k0). q(k1).", query: query}
+	vRunCase(vm, c, "", false)
+	reach("c04/gen", true)
 }
